@@ -6,7 +6,8 @@ ONLY property theorems and non-vacuity examples live here.  The model is
 granularity: one `step` = one critical section under `s.mutex` / `commitStateRWMutex`), the
 invariants are in `Store/CommitInv.lean`, the proofs in `Store/CommitLog.lean`,
 `Store/CommitBl.lean`, `Store/CommitWitness.lean`, `Store/CommitWrite.lean` (in-place tx-log write),
-`Store/CommitReload.lean` (what `Open` reloads).
+`Store/CommitReload.lean` (what `Open` reloads), `Store/CommitBlZero.lean` (the zero `BlRoot` of a tx
+with `BlTxID = 0`).
 
 `hs : Hs D` is an ARBITRARY hash (nothing is assumed about it), `z` the zero digest.
 
@@ -17,6 +18,7 @@ import ImmuModel.Store.CommitLog
 import ImmuModel.Store.CommitBl
 import ImmuModel.Store.CommitWitness
 import ImmuModel.Store.CommitReload
+import ImmuModel.Store.CommitBlZero
 import ImmuModel.Store.TruncateRun
 import ImmuModel.Store.TruncateWalk
 import ImmuModel.Store.Proofs.TruncateRunProofs
@@ -206,6 +208,28 @@ theorem replicated_precommit_preserves_inv (hs : Hs D) (z : D) (s : St D) (q : R
     Inv hs (precommitRep hs z s q).1 :=
   ⟨step_invLog hs z s (.rep q) h.1,
    step_invBl hs z s (.rep q) h.1 h.2 (by intro c e hne; cases hne)⟩
+
+omit [DecidableEq D] in
+/-- **`BlTxID = 0` goes with the zero `BlRoot` (own commits).** An own commit accepted while the
+binary-linking tree is empty — tx 1, and the first tx precommitted after
+`DiscardPrecommittedTxsSince(1)` emptied the store — writes, at `precommittedTxLogSize`, a record with
+the acknowledged id and Alh, `BlTxID = 0` and `BlRoot = z` (the zero digest), whatever ran before.
+(Before the repair of `performPrecommit` the stored `BlRoot` was what the pooled tx holder held: an
+input of the model, finding `C02:history:bltxid0-nonzero-blroot`.) -/
+theorem own_commit_empty_tree_zero_blroot (hs : Hs D) (z : D) (s : St D) (q : OwnReq D) (id : Nat) (a : D)
+    (h : InvLog hs s) (h0 : s.aht.size = 0) (hok : (precommitOwn hs z s q).2 = Out.okTx id a) :
+    ∃ r, (precommitOwn hs z s q).1.log[s.logEnd]? = some r ∧
+      r.hdr.id = id ∧ r.alh = a ∧ r.hdr.blTxID = 0 ∧ r.hdr.blRoot = z :=
+  precommitOwn_blTxID_zero z q id a h h0 hok
+
+/-- **`BlTxID = 0` goes with the zero `BlRoot` (replicated commits).** An accepted `ReplicateTx` whose
+header carries `BlTxID = 0` (checked against the zero `BlRoot`) stores the zero `BlRoot`: the stored
+header is the one that was validated. -/
+theorem replicated_bltxid_zero_stores_zero_blroot (hs : Hs D) (z : D) (s : St D) (q : RepReq D) (id : Nat) (a : D)
+    (h : InvLog hs s) (h0 : q.hdr.blTxID = 0) (hok : (precommitRep hs z s q).2 = Out.okTx id a) :
+    ∃ r, (precommitRep hs z s q).1.log[s.logEnd]? = some r ∧
+      r.hdr.id = id ∧ r.alh = a ∧ r.hdr.blTxID = 0 ∧ r.hdr.blRoot = z ∧ r.hdr.blRoot = q.hdr.blRoot :=
+  precommitRep_blTxID_zero z q id a h h0 hok
 
 /-- **Every step except `Open` preserves the whole invariant** (chain + binary linking + tree).
 
